@@ -61,7 +61,7 @@ class Color666Code(StabilizerCode):
                 raise ValueError('{} size must be odd.'.format(type(self).__name__))
         except TypeError as ex:
             raise TypeError('{} invalid parameter type'.format(type(self).__name__)) from ex
-        self._size = size
+        self._size = operator.index(size)
 
     # < StabilizerCode interface methods >
 
